@@ -60,10 +60,11 @@ def make_sketch(cfg, shared_memory=False):
     k = cfg["kind"]
     if k == "linear":
         return CountMinLinear(cfg["width"], cfg["depth"], shared_memory=shared_memory)
-    if k == "log16":
-        return CountMinLog16(cfg["width"], cfg["depth"], cfg.get("max_count", CEIL), cfg.get("num_reserved", 1023), shared_memory=shared_memory)
-    if k == "log8":
-        return CountMinLog8(cfg["width"], cfg["depth"], cfg.get("max_count", CEIL), cfg.get("num_reserved", 15), shared_memory=shared_memory)
+    if k in ("log16", "log8"):
+        cls = CountMinLog16 if k == "log16" else CountMinLog8
+        # the class loaders pass all four parameters as np.uint64 (elements of the saved args array): both forms are inputs
+        t = np.uint64 if cfg.get("argtype") == "u64" else int
+        return cls(t(cfg["width"]), t(cfg["depth"]), t(cfg.get("max_count", CEIL)), t(cfg.get("num_reserved", 1023 if k == "log16" else 15)), shared_memory=shared_memory)
     if k == "hh":
         # the constructor documents (by its own whitelist) numpy integer types for width/depth/max_key_len
         t = {None: int, "u8": np.uint8, "i8": np.int8, "u32": np.uint32, "i32": np.int32, "u64": np.uint64, "i64": np.int64}[cfg.get("argtype")]
@@ -322,14 +323,16 @@ class World:
             if how == "reentrant" and step["keys"]:
                 # the iterable itself uses the sketch while update() is consuming it (legal, if unusual, Python):
                 # after handing out its first key it adds that key once more through add()
-                def gen(keys=list(step["keys"]), sk=sk):
+                extra = step.get("extra", step["keys"][0])
+
+                def gen(keys=list(step["keys"]), sk=sk, extra=extra):
                     for t_, k_ in enumerate(keys):
                         yield k_
                         if t_ == 0:
-                            sk.add(keys[0], 1)
+                            sk.add(extra, 1)
 
                 arg = gen()
-                self._model_add(i, step["keys"][0], 1)
+                self._model_add(i, extra, 1)
             else:
                 arg = list(step["keys"]) if how in ("list", "reentrant") else tuple(step["keys"]) if how == "tuple" else iter(list(step["keys"]))
             sut(sk.update, arg)
